@@ -1,0 +1,1 @@
+//! Verification hooks: `tls` (thin pass-through wrappers; feature `verif-hooks` only).
